@@ -42,6 +42,10 @@ pub enum Tamper {
     WrongKeyForEntity { a: u16, b: u16 },
     /// the entity keeps only a signature of an unknown algorithm / with an unparseable key id
     OnlyUnsupportedSig { which: u16, unparseable: bool },
+    /// the verifier has no key entry at all for one of the signing entities
+    RemoveEntityFromMap { which: u16 },
+    /// an entity the verifier has no keys for is added to `signatures`
+    AddEntityWithoutKeys { from: u16, garbage: bool },
     // neutral
     ChangeUnsigned,
     AddUnknownAlgorithmSig { which: u16 },
@@ -376,6 +380,21 @@ pub fn oracle(c: &SignCase, cx: &mut CaseCtx) -> Result<(), String> {
             cx.class("tamper_key_missing");
             Some(false)
         }
+        Tamper::RemoveEntityFromMap { which } => {
+            let (ent, _, _) = &sigs[pick_idx(*which, sigs.len())];
+            tmap.remove(ent);
+            cx.class("tamper_entity_without_keys");
+            cx.class_if(!tmap.is_empty(), "tamper_partial_key_map");
+            Some(false)
+        }
+        Tamper::AddEntityWithoutKeys { from, garbage } => {
+            let (_, kid, sig) = &sigs[pick_idx(*from, sigs.len())];
+            set_sig(&mut t, "evil.example", kid, V::Str(if *garbage { "AAAA".into() } else { sig.clone() }));
+            tmap.remove("evil.example");
+            cx.class("tamper_entity_without_keys");
+            cx.class("tamper_partial_key_map");
+            Some(false)
+        }
         Tamper::WrongKeyForEntity { a, b } => {
             let (ea, ka, _) = &sigs[pick_idx(*a, sigs.len())];
             let (eb, kb, _) = &sigs[pick_idx(*b, sigs.len())];
@@ -546,6 +565,8 @@ fn tamper() -> impl Strategy<Value = Tamper> {
         1 => (any::<u16>(), any::<u16>()).prop_map(|(a, b)| Tamper::ReplaceSigWithOtherEntitys { a, b }),
         1 => any::<u16>().prop_map(|which| Tamper::RemoveKeyFromMap { which }),
         1 => (any::<u16>(), any::<u16>()).prop_map(|(a, b)| Tamper::WrongKeyForEntity { a, b }),
+        1 => any::<u16>().prop_map(|which| Tamper::RemoveEntityFromMap { which }),
+        1 => (any::<u16>(), any::<bool>()).prop_map(|(from, garbage)| Tamper::AddEntityWithoutKeys { from, garbage }),
         1 => (any::<u16>(), any::<bool>()).prop_map(|(which, unparseable)| Tamper::OnlyUnsupportedSig { which, unparseable }),
         2 => Just(Tamper::ChangeUnsigned),
         1 => any::<u16>().prop_map(|which| Tamper::AddUnknownAlgorithmSig { which }),
@@ -579,7 +600,7 @@ pub fn run(ck: &mut Check) {
         },
         oracle,
     );
-    for cls in ["multi_signature", "ring_template_key", "pkcs8_v2_key", "with_unsigned", "tamper_signature_bit", "tamper_key_bit", "tamper_signed_content", "neutral_unsigned_changed", "tamper_key_missing", "tamper_only_unsupported_signature", "signed_json_larger_than_65535_bytes", "signed_json_at_event_size_limit"] {
+    for cls in ["multi_signature", "ring_template_key", "pkcs8_v2_key", "with_unsigned", "tamper_signature_bit", "tamper_key_bit", "tamper_signed_content", "neutral_unsigned_changed", "tamper_key_missing", "tamper_entity_without_keys", "tamper_partial_key_map", "tamper_only_unsupported_signature", "signed_json_larger_than_65535_bytes", "signed_json_at_event_size_limit"] {
         ck.floor("sign_verify_histories", cls, 100);
     }
     let n = ck.n(4_000, 100_000);
